@@ -93,6 +93,28 @@ def impl(case):
                        iter=it, iter_second_pass_same=bool(it2 == it), n_samples=int(r.n_samples),
                        concat_ok=bool(got.shape == whole.shape and np.array_equal(got, whole)))
             del r
+            if case.get('rewrite'):
+                # the same paths now hold a recording of another length: a reader opened afterwards (same process, same
+                # arguments) has the chunk bounds of the files as they are now
+                sizes2 = [max(0 if case.get('offset', 0) else 1, x + dx) for x, dx in zip(case['sizes'], case['rewrite'])]
+                for p, x in zip(paths, sizes2):
+                    with open(p, 'wb') as f:
+                        f.write(b'\x5a' * case.get('offset', 0))
+                        f.write(np.zeros((x, case['nch']), dtype=np.int16).tobytes())
+                r2 = T.get_ephys_reader(paths, sample_rate=sr, dtype=np.int16, n_channels=case['nch'],
+                                        offset=case.get('offset', 0))
+                b2 = [int(x) for x in r2.chunk_bounds]
+                cur, tiles = 0, True
+                for a, b in r2.iter_chunks():
+                    if int(a) == int(b):
+                        continue
+                    tiles = tiles and int(a) == cur and int(b) > cur
+                    cur = int(b)
+                cum = list(np.cumsum([0] + sizes2))
+                out['rewritten'] = dict(n=int(sum(sizes2)), n_samples=int(r2.n_samples), last_bound=b2[-1] if b2 else None,
+                                        tiles=bool(tiles and cur == sum(sizes2)),
+                                        file_bounds_in=bool(all(int(c) in b2 for c in cum)))
+                del r2
         return out
     if op == 'reader_array':
         sr = case['sr']
@@ -234,6 +256,10 @@ def judge(case, impl_res, ans):
             return 'SPEC: iter_chunks intervals do not reach the sample count'
         if ok.get('concat_ok') is False:
             return 'SPEC: reader[i0:i1] over iter_chunks, stacked, differs from the recording'
+        rw = ok.get('rewritten')
+        if rw and not (rw['n_samples'] == rw['n'] == rw['last_bound'] and rw['tiles'] and rw['file_bounds_in']):
+            return ('SPEC: after the files were replaced (same paths) a newly opened reader does not have the chunk bounds '
+                    'of the new recording: %s' % rw)
         if ok.get('iter_second_pass_same') is False:
             return 'SPEC: a second pass of iter_chunks over the same reader differs from the first'
         if ok['bounds'] != m['model'] or ok['iter'] != m['iter'] or ok['part_bounds'] != m['part_bounds']:
@@ -278,6 +304,10 @@ def nontrivial(case):
 
 def tally(rep, case, impl_res, ans):
     rep.count('op:' + case['op'])
+    if case['op'] == 'reader_flat' and case.get('rewrite'):
+        rep.count('same_paths_rewritten_and_reopened')
+    if case['op'] == 'reader_flat' and 0 in case['sizes']:
+        rep.count('header_only_file:%s' % ('first' if case['sizes'][0] == 0 else 'later'))
     if case['op'] == 'reader_cbin':
         rep.count('passes_over_one_compressed_reader:%s' % ([case['cache']] + case.get('again', [])))
     if 'ok' in impl_res and case['op'] in ('chunk_bounds',):
@@ -389,6 +419,14 @@ def gen(tier, rng):
         for sizes in itertools.product(range(1, S + 1), repeat=k):
             for cs in range(1, 9 if q else 12):
                 yield dict(p=PID, op='get_chunk_bounds', sizes=list(sizes), cs=cs)
+    # size lists with EMPTY parts (a file holding only its header): leading, inner, trailing, all
+    for sizes in itertools.product(range(0, 4), repeat=3):
+        if 0 in sizes:
+            for cs in (1, 2, 3):
+                yield dict(p=PID, op='get_chunk_bounds', sizes=list(sizes), cs=cs)
+                sr = _rate_for(cs)
+                if sr is not None and sum(sizes) > 0 and (sum(sizes) + cs) % (3 if q else 1) == 0:
+                    yield dict(p=PID, op='reader_flat', sizes=list(sizes), sr=sr, nch=2, offset=[4, 3, 8][cs % 3], names='idx')
     S2 = 4 if q else 6
     for k in (1, 2, 3):
         for sizes in itertools.product(range(1, S2 + 1), repeat=k):
@@ -399,7 +437,8 @@ def gen(tier, rng):
                     kk = sum(sizes) * 7 + cs + k
                     # header offsets: none, less than a row, exactly one row, several rows
                     yield dict(p=PID, op='reader_flat', sizes=list(sizes), sr=sr, nch=nch,
-                               offset=[0, 1, 2 * nch, 2 * nch * 3, 4, 0][kk % 6], names=['idx', 'rev', 'nat'][kk % 3])
+                               offset=[0, 1, 2 * nch, 2 * nch * 3, 4, 0][kk % 6], names=['idx', 'rev', 'nat'][kk % 3],
+                               rewrite=[[3, 0, -1][(kk + i) % 3] for i in range(len(sizes))] if kk % 4 == 0 else None)
     for n in range(1, 12):
         for cs in (1, 2, 3, 5, 7, 20):
             sr = _rate_for(cs)
